@@ -2,12 +2,15 @@
     Proved about the model of the demo NextGetter and the Sid methods: the successor of "v"+ddd is requested as exactly
     "v"+(n+1) formatted with 3 digits through get_with on the same Sid (all other fields untouched), the first version is
     v001, formatted versions parse back, are pairwise distinct and ordered like the numbers (so ">" picks the numerically
-    last), and a number needing 4 digits cannot be a version.  get_last / get_new over a tree go through FindInAll: their
-    agreement with the specification is checked on the implementation over generated trees and create(get_new) chains
-    and by correspondence with the file-system model: NOT theorems (partial). *)
+    last), and a number needing 4 digits cannot be a version; get_last over a data set materialised as a tree is the member
+    agreeing with the Sid off the key that carries the greatest value (numeric for versions), or the empty Sid when there is
+    none (levels served by the path finder; decidable guards evaluated on the live configuration below).  get_new chains
+    over a tree: checked on the implementation over generated trees and create(get_new) chains and by correspondence. *)
 From Coq Require Import List String Ascii Bool Arith Permutation Sorted.
 From Spil Require Import Base.Str Base.Dict Base.Outcome Regex.Re Conf.Conf Conf.Routing Conf.WF Sid.Sid
   Search.Unfold Search.FindList Search.Finders Search.FindListProofs Search.FindersProofs FS.Fs Data.Data Data.VersionProofs Data.VersionOrderProofs Data.DataSpecProofs.
+From Spil Require Import Base.PyPath Sid.Query Sid.SidProofs Path.UnambiguousDefs Path.UnambiguousProofs Search.GlobProofs
+  Search.TreeListDefs Search.TreeListProofs Data.SidLevelDefs Data.SidLevelProofs Data.SidLevelLast.
 From SpilGen Require Hamlet.
 Import ListNotations.
 Local Open Scope string_scope.
@@ -77,3 +80,182 @@ Example C18_beyond_last :
   end = true.
 Proof. vm_compute. reflexivity. Qed.
 Print Assumptions C18_beyond_last.
+
+(** ** get_last over a data set materialised as a tree (Data/SidLevelLast.v): the existing sibling with the greatest value *)
+
+(* get_last(k): the empty Sid iff no member agrees with the Sid off k; otherwise a member that does, carrying the greatest value of k *)
+Theorem C18_get_last_greatest :
+  forall (c : Conf) (Ld : Loaded),
+  load c = Some Ld ->
+  wf_loadedb Ld = true ->
+  paths_unambiguousb Ld = true ->
+  forall (cfg : string) (E : list sid) (F : fs),
+  dataset_ok Ld cfg E F ->
+  forall (Rt : Routing) (id : string) (x : sid) (k : string) (y : sid),
+  last_guardb Ld Rt id cfg x k = true ->
+  (forall e : sid, In e E -> plain_member e) ->
+  get_last Ld Rt F x (Some k) = Ok y ->
+  exists (i : nat) (q0 : sid) (qs : list sid),
+    key_index x k = Some i /\
+    get_with_kw Ld x [(k, Some ">")] = Ok q0 /\
+    unfold_search Ld (s_string q0) false false = Ok qs /\
+    (let pre := firstn i (split_c "/" (s_string x)) in
+     let post := skipn (S i) (split_c "/" (s_string x)) in
+     y = empty_sid /\ (forall e : sid, ~ last_candidate Ld E qs pre post e) \/
+     last_candidate Ld E qs pre post y /\
+     (exists wy : string,
+        split_c "/" (s_string y) = (pre ++ [wy] ++ post)%list /\
+        sid_get y k = Some wy /\
+        (forall (e : sid) (w : string),
+         last_candidate Ld E qs pre post e -> split_c "/" (s_string e) = (pre ++ [w] ++ post)%list -> str_ltb wy w = false))).
+Proof. exact get_last_greatestb. Qed.
+Print Assumptions C18_get_last_greatest.
+
+(* the same read on fields *)
+Theorem C18_get_last_fields :
+  forall (c : Conf) (Ld : Loaded),
+  load c = Some Ld ->
+  wf_loadedb Ld = true ->
+  paths_unambiguousb Ld = true ->
+  forall (cfg : string) (E : list sid) (F : fs),
+  dataset_ok Ld cfg E F ->
+  forall (Rt : Routing) (id : string) (x : sid) (k : string) (q0 : sid) (qs : list sid) (pre : list string) 
+    (v : string) (post : list string) (y : sid),
+  naturally_typed Ld x ->
+  sempty k = false ->
+  split_c "/" (s_string x) = (pre ++ [v] ++ post)%list ->
+  nth_error (map fst (s_fields x)) (List.length pre) = Some k ->
+  get_with_kw Ld x [(k, Some ">")] = Ok q0 ->
+  unfold_search Ld (s_string q0) false false = Ok qs ->
+  routed_to Rt (FPaths id cfg) qs ->
+  existsb has_gt qs = true ->
+  (exists (q1 : sid) (rest : list sid),
+     qs = q1 :: rest /\ index_of ">" (split_c "/" (s_string q1)) = Some (List.length pre)) ->
+  Forall (fun g : string => glob_magic g = false) (pre ++ post) ->
+  stars_ok Ld cfg k pre post qs ->
+  (forall q : sid, In q qs -> exists q' : sid, starred Ld q = Ok q' /\ s_type q' = s_type x) ->
+  (forall e : sid, In e E -> plain_member e) ->
+  get_last Ld Rt F x (Some k) = Ok y ->
+  y = empty_sid /\ (forall e : sid, In e E -> s_type e = s_type x -> ~ agree_but k x e) \/
+  In y E /\
+  s_type y = s_type x /\
+  agree_but k x y /\
+  (exists wy : string,
+     sid_get y k = Some wy /\
+     (forall (e : sid) (w : string),
+      In e E -> s_type e = s_type x -> agree_but k x e -> sid_get e k = Some w -> str_ltb wy w = false)).
+Proof. exact get_last_spec_fields. Qed.
+Print Assumptions C18_get_last_fields.
+
+(* for versions "v" + 3 digits the order is numeric *)
+Theorem C18_get_last_numeric :
+  forall (c : Conf) (Ld : Loaded),
+  load c = Some Ld ->
+  wf_loadedb Ld = true ->
+  paths_unambiguousb Ld = true ->
+  forall (cfg : string) (E : list sid) (F : fs),
+  dataset_ok Ld cfg E F ->
+  forall (Rt : Routing) (id : string) (x : sid) (k : string) (q0 : sid) (qs : list sid) (pre post : list string) 
+    (y : sid) (n : nat),
+  sempty k = false ->
+  s_fields x <> [] ->
+  get_with_kw Ld x [(k, Some ">")] = Ok q0 ->
+  unfold_search Ld (s_string q0) false false = Ok qs ->
+  routed_to Rt (FPaths id cfg) qs ->
+  existsb has_gt qs = true ->
+  (exists (q1 : sid) (rest : list sid),
+     qs = q1 :: rest /\ index_of ">" (split_c "/" (s_string q1)) = Some (List.length pre)) ->
+  Forall (fun g : string => glob_magic g = false) (pre ++ post) ->
+  stars_ok Ld cfg k pre post qs ->
+  (forall e : sid, In e E -> plain_member e) ->
+  get_last Ld Rt F x (Some k) = Ok y ->
+  split_c "/" (s_string y) = (pre ++ [vname n] ++ post)%list ->
+  n < 1000 ->
+  forall (e : sid) (m : nat),
+  last_candidate Ld E qs pre post e -> split_c "/" (s_string e) = (pre ++ [vname m] ++ post)%list -> m < 1000 -> m <= n.
+Proof. exact get_last_greatest_numeric. Qed.
+Print Assumptions C18_get_last_numeric.
+
+(* the empty Sid exactly when there is no candidate *)
+Theorem C18_get_last_empty_iff :
+  forall (c : Conf) (Ld : Loaded),
+  load c = Some Ld ->
+  wf_loadedb Ld = true ->
+  paths_unambiguousb Ld = true ->
+  forall (cfg : string) (E : list sid) (F : fs),
+  dataset_ok Ld cfg E F ->
+  forall (Rt : Routing) (id : string) (x : sid) (k : string) (q0 : sid) (qs : list sid) (pre post : list string) (y : sid),
+  sempty k = false ->
+  s_fields x <> [] ->
+  get_with_kw Ld x [(k, Some ">")] = Ok q0 ->
+  unfold_search Ld (s_string q0) false false = Ok qs ->
+  routed_to Rt (FPaths id cfg) qs ->
+  existsb has_gt qs = true ->
+  (exists (q1 : sid) (rest : list sid),
+     qs = q1 :: rest /\ index_of ">" (split_c "/" (s_string q1)) = Some (List.length pre)) ->
+  Forall (fun g : string => glob_magic g = false) (pre ++ post) ->
+  stars_ok Ld cfg k pre post qs ->
+  (forall e : sid, In e E -> plain_member e) ->
+  get_last Ld Rt F x (Some k) = Ok y -> y = empty_sid <-> (forall e : sid, ~ last_candidate Ld E qs pre post e).
+Proof. exact get_last_empty_iff. Qed.
+Print Assumptions C18_get_last_empty_iff.
+
+(** ** instance on the configuration of this run: a project down to a task with two versions, as a tree *)
+Definition Rt_opt : option Routing := parse_routing Hamlet.raw.
+Lemma Rt_parses : Rt_opt <> None.
+Proof. vm_compute. discriminate. Qed.
+Definition Rt0 : Routing :=
+  match Rt_opt as o return (o <> None -> Routing) with
+  | Some r => fun _ => r
+  | None => fun H => match H eq_refl with end
+  end Rt_parses.
+Definition mk0 (s : string) : sid := match Sid Hamlet.the_loaded s with Ok x => x | Raise _ => empty_sid end.
+Definition v1 := mk0 "hamlet/a/char/ophelia/model/v001".
+Definition v3 := mk0 "hamlet/a/char/ophelia/model/v003".
+Definition task0 := mk0 "hamlet/a/char/ophelia/model".
+(* the path finder that serves the version level, and its configuration, read from the routing table *)
+Definition fp : string * string := match finder_for Rt0 (s_type v1) with Some (FPaths i c) => (i, c) | _ => ("", "") end.
+Definition E0 : list sid := map mk0
+  ["hamlet"; "hamlet/a"; "hamlet/a/char"; "hamlet/a/char/ophelia"; "hamlet/a/char/ophelia/model";
+   "hamlet/a/char/ophelia/model/v001"; "hamlet/a/char/ophelia/model/v002"].
+Definition pathof0 (x : sid) : string := match sid_path Hamlet.the_loaded x (snd fp) with Ok (Some p) => p | _ => "" end.
+Definition F0 : fs :=
+  fold_left (fun f x => match fs_mkdir_parents f (pathof0 x) with Ok f' => f' | Raise _ => f end) E0 [("/", Dir)].
+Lemma Hpu0 : paths_unambiguousb Hamlet.the_loaded = true.
+Proof. vm_compute. reflexivity. Qed.
+Lemma HD0 : dataset_ok Hamlet.the_loaded (snd fp) E0 F0.
+Proof. apply dataset_okb_sound. vm_compute. reflexivity. Qed.
+
+Lemma Hplain0 : forall e, In e E0 -> plain_member e.
+Proof.
+  assert (H : forallb plain_memberb E0 = true) by (vm_compute; reflexivity).
+  rewrite forallb_forall in H. intros e He. specialize (H e He). unfold plain_memberb in H.
+  apply andb_true_iff in H. destruct H as (H1 & H2). apply negb_true_iff in H1, H2. split; assumption.
+Qed.
+
+Example C18_instance_values :
+  get_last Hamlet.the_loaded Rt0 F0 v1 (Some "version") = Ok (mk0 "hamlet/a/char/ophelia/model/v002") /\
+  get_last Hamlet.the_loaded Rt0 F0 v3 (Some "version") = Ok (mk0 "hamlet/a/char/ophelia/model/v002") /\
+  get_last Hamlet.the_loaded Rt0 F0 (mk0 "hamlet/a/char/ophelia/rig/v001") (Some "version") = Ok empty_sid /\
+  map (fun x => last_guardb Hamlet.the_loaded Rt0 (fst fp) (snd fp) x "version") [v1; v3; mk0 "hamlet/a/char/ophelia/rig/v001"] = [true; true; true].
+Proof. vm_compute. repeat split; reflexivity. Qed.
+Print Assumptions C18_instance_values.
+
+Example C18_instance_greatest y :
+  get_last Hamlet.the_loaded Rt0 F0 v1 (Some "version") = Ok y ->
+  exists i q0 qs,
+    key_index v1 "version" = Some i /\ get_with_kw Hamlet.the_loaded v1 [("version", Some ">")] = Ok q0 /\
+    unfold_search Hamlet.the_loaded (s_string q0) false false = Ok qs /\
+    let pre := firstn i (split_c "/" (s_string v1)) in
+    let post := skipn (S i) (split_c "/" (s_string v1)) in
+    (y = empty_sid /\ forall e, ~ last_candidate Hamlet.the_loaded E0 qs pre post e) \/
+    (last_candidate Hamlet.the_loaded E0 qs pre post y /\
+     exists wy, split_c "/" (s_string y) = (pre ++ [wy] ++ post)%list /\ sid_get y "version" = Some wy /\
+       forall e w, last_candidate Hamlet.the_loaded E0 qs pre post e -> split_c "/" (s_string e) = (pre ++ [w] ++ post)%list ->
+                   str_ltb wy w = false).
+Proof.
+  apply (get_last_greatestb Hamlet.the_conf Hamlet.the_loaded Hamlet.the_loaded_eq Hamlet.conf_wf Hpu0 (snd fp) E0 F0 HD0 Rt0 (fst fp) v1 "version" y).
+  - vm_compute. reflexivity.
+  - exact Hplain0.
+Qed.
+Print Assumptions C18_instance_greatest.
